@@ -20,6 +20,7 @@ ID = "C08"
 RULE = ("one element = (tomography type, flag, system, unknown outcome count, tester set, schedule list); tester sets are "
         "named sets of physical states / POVMs with mixed outcome counts 2..4 (just complete, over-complete, incomplete "
         "wide / tall); schedule lists: 'all', the explicit and the reversed full list, every sub-list up to the size bound, "
+        "every sub-list missing 1 (or 2) schedules, "
         "repetitions, all permutations of two 3-schedule lists; per element the model is compared on the full affine basis "
         "of variable space (0 and every unit vector) and on a physical affine basis of the feasible set; non-trivial = "
         "the list has >= 2 schedules or unequal outcome counts; distinct = distinct (configuration, schedule list)")
@@ -30,7 +31,7 @@ ASSUMPTIONS = ["the unknown's variables are mapped to objects by the documented 
                "'all' list; other lists use 3 physical points (each schedule's circuit is covered by 'all')",
                "objects handed to calc_prob_dists carry the same on_para_eq_constraint flag as the tomography"]
 BOUNDS = {"quick": "Q1, Q3; povmt m=2..4, qmpt m=2..4 on Q1, m=2..3 (m=4 on one tester set) on Q3; sub-lists: all sizes when "
-                   "<= 6 schedules, else sizes <= k with at most 700 sub-lists (k>=1)",
+                   "<= 6 schedules, else sizes <= k with at most 700 sub-lists (k>=1); deletions of 1 schedule, of 2 when <= 350 lists",
           "thorough": "adds Q2 (qmpt m=2, m=3..4 on two tester sets), Q3 qmpt m=4 everywhere; sub-list cap 4000"}
 EXHAUSTIVE = {"quick": True, "thorough": True}
 CASE_TIMEOUT = 900
@@ -43,7 +44,7 @@ def sub_cap(tier):
 
 def families(tier, seed):
     cfgs = K.config_list(tier)
-    lists_cases, sub_cases = [], []
+    lists_cases, sub_cases, co_cases = [], [], []
     for cfg in cfgs:
         lists_cases.append({"cfg": cfg})
         S = n_all(cfg, seed)
@@ -55,8 +56,14 @@ def families(tier, seed):
                     sub_cases.append({"cfg": cfg, "size": k, "first": f})
             else:
                 sub_cases.append({"cfg": cfg, "size": k, "first": -1})
+        # large sub-lists: the full list with 1 (or 2) schedules deleted (sizes not already covered above)
+        if S > 6:
+            co_cases.append({"cfg": cfg, "drop": 1, "first": -1})
+            if S - 2 > kmax and S + S * (S - 1) // 2 <= sub_cap(tier) // 2:
+                for f in range(S - 1):
+                    co_cases.append({"cfg": cfg, "drop": 2, "first": f})
     lists_cases.sort(key=lambda c: cost_key(c["cfg"]))
-    return [("lists", lists_cases), ("sublists", sub_cases)]
+    return [("lists", lists_cases), ("sublists", sub_cases), ("colists", co_cases)]
 
 
 def cost_key(cfg):
@@ -100,6 +107,16 @@ def execute(family, params, seed):
             n += 1
             check_list(out, seen, cx, name, idx, digs)
         inner(out, n - 1)
+    elif family == "colists":
+        S = len(cx.all)
+        k, f = params["drop"], params["first"]
+        n = 0
+        for comb in itertools.combinations(range(S), k):
+            if f >= 0 and comb[0] != f:
+                continue
+            n += 1
+            check_list(out, seen, cx, "drop%d" % k, [i for i in range(S) if i not in comb], digs)
+        inner(out, max(0, n - 1))
     else:
         S = len(cx.all)
         k, f = params["size"], params["first"]
